@@ -7,10 +7,11 @@ package main
 // whose key has that value or is rejected.  Differential oracle on the implementation: the same
 // update through the canonical spelling, applied to a deep copy of the tree, must give the same
 // leaf map.  ytypes compares the path's key string with the string KeyValueAsString prints for
-// each entry; "01" matches no entry, so SetNode (InitMissingElements) builds a new entry for the
-// parsed key 1 and stores it over the existing one: every other leaf of the entry is lost
-// (signature setrequest/noncanonical-key-replaces-entry; Coq witness
-// C13.c13_refuted_noncanonical_key_replaces_entry).  Every case is also printed as a GSetReq
+// each entry; "01" matches no entry, and before fix 8c0e3a71 SetNode (InitMissingElements) built a
+// new entry for the parsed key 1 and stored it over the existing one, losing every other leaf of
+// the entry (signature setrequest/noncanonical-key-replaces-entry).  insertAndGetKey now keeps the
+// entry the map holds under the parsed key (C13.c13_noncanonical_key_keeps_entry); the oracle
+// stays as the regression check.  Every case is also printed as a GSetReq
 // term for the correspondence check with Tree/SetReq.v.
 
 import (
